@@ -63,6 +63,16 @@ func NewBuilder(a aliaser, ip importProvider, cf codeFormatter, buildInfo string
 }
 
 func (b Builder) Build(o output.Output) (string, error) {
+	if b.stub {
+		// The stub omits the bodies of the constructors, so invalid code inside them would go unnoticed.
+		// Generate the regular code first to accept a configuration with --stub only if it is accepted without it.
+		regular := b
+		regular.stub = false
+		if _, err := regular.Build(o); err != nil {
+			return "", err
+		}
+	}
+
 	d := data{
 		ImportCollection: b.importsProvider,
 		Output:           o,
